@@ -50,7 +50,14 @@ void finish_op(World& W, int wi)
     if (s.threw && s.encoded <= kCap)
       fail(W, "log call of " + std::to_string(s.encoded) + " B threw a QuillError although the queue's capacity is " + std::to_string(kCap) +
                 " B (configured " + std::to_string(kInitCap) + " B): a fitting statement must be accepted, wait or be dropped");
-    s.ts = x.w->first_realtime_in_op;
+    // "a producer is never left waiting while its queue is empty and the backend is idle": a blocked call re-attempts the
+    // reservation every FrontendOptions::blocking_queue_retry_interval_ns (documented); a sleep that has grown far beyond it
+    // (an unbounded back-off) keeps the producer asleep after the backend has made room
+    if (!kDropping && x.w->max_sleep_ns_in_op > 100ull * SimFrontendOptions::blocking_queue_retry_interval_ns)
+      fail(W, "a blocked log call asked to sleep " + std::to_string(x.w->max_sleep_ns_in_op) + " ns before its next attempt (after " +
+                std::to_string(x.w->sleeps_in_op) + " attempts); the documented retry interval is " +
+                std::to_string(SimFrontendOptions::blocking_queue_retry_interval_ns) + " ns: the producer stays asleep although the backend has made room");
+    s.ts = W.loggers[s.logger].user_clock ? x.w->first_user_ts_in_op : x.w->first_realtime_in_op;
     s.enq_time = sim::core().vclock;
     if (s.kind == SKind::MacroStatic || s.kind == SKind::MacroDynamic)
     {
@@ -117,6 +124,14 @@ void finish_op(World& W, int wi)
   x.pending = OpKind::None;
 }
 
+// The cross-thread clause of flush_log() is stated for system / TSC clocks. A case that has a logger on a user clock (C03
+// only) makes no cross-thread claim at all: a statement stamped ahead of the wall clock sits at the front of its thread's
+// buffer until everything older is written, and holds back the system-clock statements queued behind it.
+bool any_user_clock(World& W)
+{
+  for (auto const& l : W.loggers) if (l.user_clock) return true;
+  return false;
+}
 bool sink_accepts(World& W, int sk, Stmt const& s, std::string const& msg); // sim_oracles.h
 std::string stmt_message(Stmt const& s);                                    // sim_oracles.h
 
@@ -387,7 +402,7 @@ void op_log(World& W, int wi, bool in_burst, int ypoint, int logger_override = -
     {
       Stmt const& e = W.stmts[k];
       if (!e.call_done || !e.accepted || e.faulty || is_bt_kind(e.kind)) continue;
-      if (e.w == s.w || W.grace_ns > 0) x.imm_must.push_back(k);
+      if (e.w == s.w || (W.grace_ns > 0 && !any_user_clock(W))) x.imm_must.push_back(k);
     }
     W.r->label("immediate_flush_log_call");
   }
@@ -554,7 +569,9 @@ void op_flush(World& W, int wi, bool in_burst, int ypoint, int logger_override =
   {
     Stmt const& s = W.stmts[k];
     if (!s.call_done || !s.accepted || s.faulty || is_bt_kind(s.kind)) continue;
-    if (s.w == f.w || W.grace_ns > 0) f.must_be_written.push_back(k);
+    // (the cross-thread clause is stated for system / TSC clocks: a statement stamped by a user clock is not owed to the
+    // flush of another thread)
+    if (s.w == f.w || (W.grace_ns > 0 && !any_user_clock(W))) f.must_be_written.push_back(k);
   }
   W.flushes.push_back(f);
   x.pending = OpKind::Flush;
